@@ -148,7 +148,12 @@ func (c *Commands) UnmarshalBinary(uplink bool, data []byte) error {
 
 	for i < len(data) {
 		var cmd Command
-		if err := cmd.UnmarshalBinary(uplink, data[i:]); err != nil {
+		end := len(data)
+		// a command without payload bytes must not see the commands that follow it
+		if p, err := GetCommandPayload(uplink, CID(data[i])); err == nil && p.Size() == 0 {
+			end = i + 1
+		}
+		if err := cmd.UnmarshalBinary(uplink, data[i:end]); err != nil {
 			return err
 		}
 		i += cmd.Size()
@@ -472,7 +477,7 @@ func (p DevDeleteImageReqPayload) MarshalBinary() ([]byte, error) {
 
 // UnmarshalBinary decodes the payload from a slice of bytes.
 func (p *DevDeleteImageReqPayload) UnmarshalBinary(data []byte) error {
-	if len(data) != p.Size() {
+	if len(data) < p.Size() {
 		return fmt.Errorf("lorawan/applayer/firmwaremanagement: %d bytes are expected", p.Size())
 	}
 
